@@ -334,9 +334,9 @@ func checkDNSCache(c *fw.Ctx) {
 	if header != nil {
 		construct := "the eviction loop is entered only with a positive size (it cannot make room in an empty cache)"
 		guarded := false
-		for _, f := range fw.DomConds(header) {
-			s := f.String()
-			if strings.Contains(s, "recv.size") && (strings.HasPrefix(s, "!(") && (strings.Contains(s, "<= 0)") || strings.Contains(s, "< 1)")) || !strings.HasPrefix(s, "!") && (strings.Contains(s, "> 0)") || strings.Contains(s, ">= 1)"))) {
+		// (the loop may sit in a helper of lookup: the conditions at its call sites count)
+		for _, s := range fw.DeepFacts(insertFr, header) {
+			if strings.Contains(s, ".size") && (strings.HasPrefix(s, "!(") && (strings.Contains(s, "<= 0)") || strings.Contains(s, "< 1)")) || !strings.HasPrefix(s, "!") && (strings.Contains(s, "> 0)") || strings.Contains(s, ">= 1)"))) {
 				guarded = true
 			}
 		}
